@@ -4,6 +4,7 @@ pub mod c01;
 pub mod c02;
 pub mod c03;
 pub mod c04;
+pub mod c05;
 pub mod c06;
 pub mod c07;
 pub mod c08;
@@ -14,6 +15,10 @@ pub mod c12;
 pub mod c13;
 pub mod c14;
 pub mod c15;
+pub mod c17;
+pub mod c18;
+pub mod c19;
+pub mod c20;
 
 /// Instantiates a generic scenario function for a named (key, value) pair of the element menu.
 #[macro_export]
@@ -74,6 +79,7 @@ pub fn dispatch(c: &mut Ctx) -> bool {
         "C02" => c02::run(c),
         "C03" => c03::run(c),
         "C04" => c04::run(c),
+        "C05" => c05::run(c),
         "C06" => c06::run(c),
         "C07" => c07::run(c),
         "C08" => c08::run(c),
@@ -84,6 +90,10 @@ pub fn dispatch(c: &mut Ctx) -> bool {
         "C13" => c13::run(c),
         "C14" => c14::run(c),
         "C15" => c15::run(c),
+        "C17" => c17::run(c),
+        "C18" => c18::run(c),
+        "C19" => c19::run(c),
+        "C20" => c20::run(c),
         _ => return false,
     }
     true
